@@ -110,10 +110,12 @@ impl Flag {
     }
 }
 
+pub static LOG_WAKES: AtomicBool = AtomicBool::new(true);
+
 impl ArcWake for Flag {
     fn wake_by_ref(arc_self: &Arc<Self>) {
         arc_self.wakes.fetch_add(1, Ordering::SeqCst);
-        if !arc_self.set.swap(true, Ordering::SeqCst) {
+        if !arc_self.set.swap(true, Ordering::SeqCst) && LOG_WAKES.load(Ordering::Relaxed) {
             emit("Wake", json!({"who": arc_self.name}));
         }
     }
